@@ -261,11 +261,28 @@ func (r *ATRun) PhaseOne(hook func(r *ATRun, localIdx int)) {
 	// every fifth case runs its local transactions on ONE pinned connection (db.Conn): database/sql does not
 	// reset the session between them, as it does when a connection comes out of the pool
 	pinned := idHash(c.ID)%5 == 1
+	// every seventh case sends its statements as prepared statements (Prepare, then Exec on the statement)
+	prepared := idHash(c.ID)%7 == 3
+	type preparer interface {
+		PrepareContext(ctx context.Context, query string) (*sql.Stmt, error)
+		ExecContext(ctx context.Context, query string, args ...interface{}) (sql.Result, error)
+	}
+	exec := func(ctx context.Context, x preparer, q string, args []interface{}) (sql.Result, error) {
+		if !prepared {
+			return x.ExecContext(ctx, q, args...)
+		}
+		ps, err := x.PrepareContext(ctx, q)
+		if err != nil {
+			return nil, err
+		}
+		defer ps.Close()
+		return ps.ExecContext(ctx, args...)
+	}
 	r.crash = safeCall(func() {
 		r.xid, _ = InGlobalTx(c.ID, func(ctx context.Context) error {
 			var db interface {
 				BeginTx(ctx context.Context, opts *sql.TxOptions) (*sql.Tx, error)
-				ExecContext(ctx context.Context, query string, args ...interface{}) (sql.Result, error)
+				preparer
 			} = w.DB
 			if pinned {
 				conn, cerr := w.DB.Conn(ctx)
@@ -292,11 +309,11 @@ func (r *ATRun) PhaseOne(hook func(r *ATRun, localIdx int)) {
 							r.Toks = append(r.Toks, tok)
 							if ltx.ContinueOnError {
 								disarm := st.Arm(w.Eng, sc.Table)
-								tx.ExecContext(ctx, q, args...)
+								exec(ctx, tx, q, args)
 								disarm()
 							} else if err == nil {
 								disarm := st.Arm(w.Eng, sc.Table)
-								_, err = tx.ExecContext(ctx, q, args...)
+								_, err = exec(ctx, tx, q, args)
 								disarm()
 							}
 						}
@@ -311,7 +328,7 @@ func (r *ATRun) PhaseOne(hook func(r *ATRun, localIdx int)) {
 					q, args, tok := st.Render(sc)
 					r.Toks = append(r.Toks, tok)
 					disarm := st.Arm(w.Eng, sc.Table)
-					_, err = db.ExecContext(ctx, q, args...)
+					_, err = exec(ctx, db, q, args)
 					disarm()
 				}
 				brs := w.coord.RegisteredBranches(tmXID(ctx))
